@@ -139,3 +139,930 @@ def generated_text(rows):
               'def outside : List (String × Nat) := [' + ', '.join('("%s", %d)' % (name, i) for name, n, i, fn, d, note, cls in rows if d is None) + ']', '',
               'end NutilsVerif.C04.Generated', '']
     return '\n'.join(lines)
+
+
+# ------------------------------------------------------------------------------------------------ instrumentation
+
+HITS = collections.Counter()        # defining class of the `_derivative` rule that ran
+HITS_CONCRETE = collections.Counter()  # concrete node class it ran on
+
+
+def derivative_classes():
+    import nutils.function
+    classes = {ev.Array, *all_subclasses(ev.Array)}
+    return sorted((c for c in classes if '_derivative' in c.__dict__), key=lambda c: c.__name__)
+
+
+def install_hit_counters():
+    for cls in derivative_classes():
+        orig = cls.__dict__['_derivative']
+        if getattr(orig, '_c04_counter', False):
+            continue
+        def make(orig, cls):
+            @functools.wraps(orig)
+            def counted(self, var, seen):
+                HITS[cls.__name__] += 1
+                HITS_CONCRETE[type(self).__name__] += 1
+                return orig(self, var, seen)
+            counted._c04_counter = True
+            return counted
+        setattr(cls, '_derivative', make(orig, cls))
+
+
+# ------------------------------------------------------------------------------------------------ real code: evaluation and finite differences
+
+STENCIL = ((-3, -1/60), (-2, 3/20), (-1, -3/4), (1, 3/4), (2, -3/20), (3, 1/60))
+
+
+def fd_jacobian(e, args, wrt, h):
+    """6-point central finite differences of the REAL eval_once w.r.t. every entry of args[wrt]; None when an evaluation fails"""
+    x0 = numpy.asarray(args[wrt], dtype=float)
+    cols = []
+    for j in numpy.ndindex(*x0.shape):
+        acc = 0.
+        for k, w in STENCIL:
+            x = x0.copy(); x[j] += k * h
+            kind, v = X.real_eval(e, dict(args, **{wrt: x}))
+            if kind != 'ok':
+                return None
+            acc = acc + w * numpy.asarray(v, dtype=float)
+        cols.append(acc / h)
+    eshape = cols[0].shape if cols else tuple(int(n) for n in e.shape)
+    J = numpy.zeros(eshape + x0.shape)
+    for j, col in zip(numpy.ndindex(*x0.shape), cols):
+        J[(Ellipsis,) + j] = col
+    return J
+
+
+def rel_close(a, b, rtol):
+    a, b = numpy.asarray(a, dtype=float), numpy.asarray(b, dtype=float)
+    if a.shape != b.shape:
+        return False
+    scale = max(1., float(numpy.abs(a).max(initial=0.)), float(numpy.abs(b).max(initial=0.)))
+    return bool((numpy.abs(a - b) <= rtol * scale).all())
+
+
+def fd_verdict(e, dval, args, wrt):
+    """'agree' | 'disagree' | 'unreliable': the real derivative value against finite differences of the real expression"""
+    J1 = fd_jacobian(e, args, wrt, 2.**-6)
+    J2 = fd_jacobian(e, args, wrt, 2.**-7)
+    if J1 is None or J2 is None or not rel_close(J1, J2, 1e-7):
+        return 'unreliable', J1
+    if numpy.asarray(dval).shape != J1.shape:
+        return 'disagree', J1
+    return ('agree' if rel_close(dval, J1, 1e-6) else 'disagree'), J1
+
+
+def pack(e, args):
+    try:
+        return base64.b64encode(pickle.dumps((e, args))).decode()
+    except Exception as ex:
+        return 'unpicklable: %r' % ex
+
+
+def keys_to_array(res, env=None):
+    """numeric reading of a Lean result (supporting comparisons only)"""
+    vals = [polykey.to_float(k, env) for k in res['data']]
+    return numpy.array(vals, dtype=float).reshape(res['shape'])
+
+
+# ------------------------------------------------------------------------------------------------ cases
+
+class Case:
+    def __init__(self, stream, label, e, wrt, args, ds, e_real=None, presubst=False, symbolic=(), jacpt=False, note=None, fd=True):
+        self.stream, self.label = stream, label
+        self.e = e                    # the tree Lean differentiates formally
+        self.e_real = e if e_real is None else e_real   # the tree the real code differentiated (may contain nodes outside the Lean fragment)
+        self.wrt, self.args, self.ds = wrt, args, ds    # ds: [(tag, tree)]
+        self.presubst, self.symbolic, self.jacpt, self.note, self.fd = presubst, tuple(symbolic), jacpt, note, fd
+
+    def request(self):
+        sym = {self.wrt: numpy.asarray(self.args[self.wrt]).shape}
+        for k in self.symbolic:
+            sym[k] = numpy.asarray(self.args[k]).shape
+        conc = {k: v for k, v in self.args.items() if k not in sym}
+        line, s = ser.request([self.e] + [d for _, d in self.ds], conc, symbolic=sym)
+        j = json.loads(line)
+        j['wrt'] = self.wrt
+        j['point'] = ser.array_json(numpy.asarray(self.args[self.wrt], dtype=float))['data']
+        j['presubst'] = self.presubst
+        j['jacpt'] = self.jacpt
+        j['others'] = {k: ser.array_json(numpy.asarray(self.args[k], dtype=float))['data'] for k in self.symbolic}
+        return json.dumps(j, separators=(',', ':'))
+
+
+def safe_derivative(e, var, timeout=30):
+    return X.guarded(lambda: ev.derivative(e, var), timeout)
+
+
+def safe_simplified(e, timeout=20):
+    return X.guarded(lambda: e.simplified, timeout)
+
+
+def float_argument_names(e):
+    return sorted(a.name for a in e.arguments if isinstance(a, ev.Argument) and a.dtype == float)
+
+
+def find_argument(e, name):
+    for a in e.arguments:
+        if isinstance(a, ev.Argument) and a.name == name:
+            return a
+    return None
+
+
+def derivative_case(c, stream, label, e, wrt, args, second=True, outcome=None, e_lean=None, **kw):
+    """build the Case(s) for expression e and argument name wrt using the REAL derivative; returns list of Case"""
+    var = find_argument(e, wrt)
+    if var is None:
+        shape = numpy.asarray(args[wrt]).shape
+        var = ev.Argument(wrt, tuple(ev.constant(n) for n in shape), float)
+    kind, d = safe_derivative(e, var)
+    if kind != 'ok':
+        tag = 'derivative-%s:%s' % (kind, type(d).__name__ if d is not None else '')
+        if outcome is not None: outcome[tag] += 1
+        if kind == 'exception' and isinstance(d, NotImplementedError):
+            return []
+        # any other exception / hang on a well-formed differentiable expression: the derivative does not exist as a tree
+        c.case(('raises', stream, label))
+        sig = 'derivative-raises:%s:%s' % (type(d).__name__ if d is not None else 'hang', shrink.skeleton(e))
+        c.failing_input(sig, 'evaluable.derivative raises %r on a well-formed expression' % (d,), dict(stream=stream, label=label, expr=X.describe(e, args), wrt=wrt, pickled=pack(e, args)))
+        return []
+    ds = [('raw', d)]
+    k2, s = safe_simplified(d)
+    if k2 == 'ok' and s is not d:
+        ds.append(('simplified', s))
+    elif k2 != 'ok' and outcome is not None:
+        outcome['derivative-simplify-' + k2] += 1
+    cases = [Case(stream, label, e if e_lean is None else e_lean, wrt, args, ds, e_real=e, **kw)]
+    if second and e_lean is None:
+        names = float_argument_names(d)
+        if names:
+            w2 = c.rng.choice(names)
+            k3, dd = safe_derivative(d, find_argument(d, w2))
+            if k3 == 'ok':
+                ds2 = [('raw', dd)]
+                k4, s2 = safe_simplified(dd)
+                if k4 == 'ok' and s2 is not dd:
+                    ds2.append(('simplified', s2))
+                cases.append(Case(stream, label + '/second', d, w2, args, ds2, **kw))
+            elif outcome is not None:
+                outcome['second-derivative-%s' % k3] += 1
+    return cases
+
+
+def tree_size(e):
+    return len(shrink.all_nodes(e))
+
+
+class Judge:
+    """runs a batch of cases through the Lean driver and turns the answers into verdicts"""
+
+    def __init__(self, c):
+        self.c = c
+        self.outcome = collections.Counter()
+        self.by_stream = collections.defaultdict(collections.Counter)
+        self.nspec = self.nspec_bad = 0
+        self.nsym = self.npoint = self.nnum = 0
+        self.spec_classes = collections.Counter()
+
+    def run(self, cases, maxnodes=900):
+        c = self.c
+        todo, reqs = [], []
+        for case in cases:
+            try:
+                if sum(tree_size(t) for t in [case.e] + [d for _, d in case.ds]) > maxnodes:
+                    self.outcome['skipped-too-large'] += 1
+                    continue
+                reqs.append(case.request()); todo.append(case)
+            except ValueError as ex:
+                self.outcome['not-serialisable'] += 1
+        answers = c.model(reqs, driver='C04') if reqs else []
+        for case, a in zip(todo, answers):
+            if a.startswith('bad-request'):
+                raise Infra('C04 driver rejected a request: %s' % a[:300])
+            self.judge(case, json.loads(a))
+
+    # ---- helpers
+    def real(self, e, args):
+        return X.real_eval(e, args)
+
+    def count(self, case, tag):
+        self.outcome[tag] += 1
+        self.by_stream[case.stream][tag] += 1
+
+    def numeric_fallback(self, case, why):
+        """no Lean verdict: decide numerically on the real code (real derivative value vs finite differences of the real expression)"""
+        c = self.c
+        for tag, d in case.ds:
+            kd, dv = self.real(d, case.args)
+            if kd != 'ok':
+                self.count(case, 'numeric:derivative-not-evaluable:' + kd); continue
+            v, J = fd_verdict(case.e_real, dv, case.args, case.wrt)
+            self.count(case, 'numeric:%s(%s)' % (v, why))
+            if v == 'agree':
+                self.nnum += 1
+            elif v == 'disagree':
+                self.report(case, tag, d, dv, J, 'finite differences of the real expression (Lean could not decide: %s)' % why)
+
+    def report(self, case, tag, d, dv, expected, how):
+        c = self.c
+        wrt = case.wrt
+        def fails(e2, a2):
+            if wrt not in a2: return False
+            var = find_argument(e2, wrt)
+            if var is None: return False
+            k, d2 = safe_derivative(e2, var, 10)
+            if k != 'ok': return False
+            if tag == 'simplified':
+                k, d2 = safe_simplified(d2, 10)
+                if k != 'ok': return False
+            k, v2 = X.real_eval(d2, a2)
+            if k != 'ok': return False
+            return fd_verdict(e2, v2, a2, wrt)[0] == 'disagree'
+        small, sargs = case.e_real, case.args
+        try:
+            if case.e_real is case.e and fails(case.e_real, case.args):
+                small, sargs = shrink.shrink(case.e_real, case.args, fails, budget=40)
+        except Exception:
+            pass
+        sig = 'derivative-wrong:%s%s' % (shrink.skeleton(small) or type(small).__name__, ':simplified-only' if tag == 'simplified' and not getattr(case, 'raw_bad', False) else '')
+        c.failing_input(sig, 'derivative tree (%s) of %s w.r.t. %s differs from the true Jacobian; decided by %s' % (tag, case.label, wrt, how),
+                        dict(stream=case.stream, label=case.label, wrt=wrt, which=tag, expr=X.describe(small, sargs), pickled=pack(small, sargs),
+                             original=X.describe(case.e_real, case.args), real_derivative=numpy.asarray(dv).tolist() if dv is not None else None,
+                             expected=numpy.asarray(expected).tolist() if expected is not None else None))
+        self.count(case, 'VIOLATION')
+
+    # ---- the verdict for one case
+    def judge(self, case, a):
+        c = self.c
+        key = (case.stream, case.label, case.wrt, tuple(getattr(d, '__nutils_hash__', id(d)) for _, d in case.ds))
+        nontrivial = any(not isinstance(d, ev.Zeros) for _, d in case.ds)
+        c.case(key, nontrivial=nontrivial)
+        if len(c.samples) < 5 and nontrivial and tree_size(case.e) < 25:
+            c.sample(dict(stream=case.stream, label=case.label, wrt=case.wrt, expr=X.describe(case.e, case.args)['tree'], derivative_nodes=tree_size(case.ds[0][1])))
+        if 'error' in a:
+            self.count(case, 'lean-cannot-evaluate-e:' + a['error'].split(':')[0])
+            if a['error'].startswith('illformed') and not a['error'].startswith('illformed:non-integer'):
+                self.count(case, 'lean-e-illformed:' + a['error'][:60])
+            if case.fd: self.numeric_fallback(case, 'e ' + a['error'].split(':')[0])
+            return
+        if not a['roundtrip']:
+            c.broken_no_input('corr:parseKey-roundtrip', 'Poly.parseKey does not invert Poly.key on a value of the evaluator', dict(label=case.label, expr=X.describe(case.e, case.args)))
+        # spec-eval correspondence: Lean value of e and of every derivative tree at the point vs the real evaluation
+        if case.e_real is case.e and not case.presubst:
+            ke, ve = self.real(case.e, case.args)
+            if ke == 'ok':
+                self.spec_eval(case, 'e', case.e, a['e'], ve)
+        real_d = []
+        for (tag, d), res in zip(case.ds, a['d']):
+            kd, dv = self.real(d, {k: v for k, v in case.args.items() if not (case.presubst and k == case.wrt)})
+            real_d.append((kd, dv))
+            if kd == 'ok':
+                self.spec_eval(case, 'd:' + tag, d, res, dv)
+        for (tag, d), chk, (kd, dv) in zip(case.ds, a['checks'], real_d):
+            if not chk['shape']:
+                # the shape clause: derivative shape must be e.shape ++ x.shape
+                self.count(case, 'shape-wrong')
+                self.report(case, tag, d, dv, None, 'shape of the derivative tree: ' + chk.get('what', ''))
+                continue
+            sym, pt = chk['sym'], chk['pt']
+            if sym in ('same', 'same-modinv'):
+                self.count(case, 'proved-symbolically' + ('-modinv' if sym == 'same-modinv' else '') + ':' + tag); self.nsym += 1
+                continue
+            if sym == 'error' or pt in ('error', 'unknown'):
+                # Lean cannot evaluate this derivative tree (class outside the fragment) or cannot differentiate an atom: use the oracle at the point
+                self.oracle_vs_real(case, tag, d, kd, dv, a, chk)
+                continue
+            if pt == 'same':
+                self.count(case, 'equal-at-sample-point:' + tag); self.npoint += 1
+                continue
+            if pt in ('kink', 'undefined'):
+                self.count(case, 'dropped-' + pt + ':' + tag)
+                continue
+            assert pt == 'differ', chk
+            # exact normal forms differ at the point: transcendental atoms may still agree numerically
+            try:
+                close = all(polykey.close(polykey.to_float(x), polykey.to_float(y), rtol=1e-9, atol=1e-11) for _, x, y in chk['diffs'])
+            except (KeyError, ValueError, OverflowError, ZeroDivisionError):
+                close = None
+            if close:
+                self.count(case, 'close-at-sample-point:' + tag); self.npoint += 1
+                continue
+            if close is None:
+                self.oracle_vs_real(case, tag, d, kd, dv, a, chk)
+                continue
+            # candidate: confirm on the real code
+            if tag == 'raw': case.raw_bad = True
+            self.confirm(case, tag, d, kd, dv, a, chk)
+
+    def spec_eval(self, case, what, tree, res, real_value):
+        m = X.compare_result(res, real_value)
+        self.outcome['spec-eval:' + m] += 1
+        if m in ('exact', 'close'):
+            self.nspec += 1; self.c.traces += 1
+        elif m in ('shape', 'value') or m == 'error:illformed':
+            if m == 'error:illformed' and 'non-integer' in res.get('what', ''):
+                return
+            if m == 'value' and any('arctan2(0,-' in k or 'arctan2(0,0)' in k for k in res['data']):
+                self.outcome['spec-eval:on-branch-cut-of-arctan2'] += 1   # signed zero decides the side in floating point
+                return
+            self.nspec_bad += 1
+            self.c.broken_no_input('corr:spec-eval', 'Lean specification evaluator and real evaluation disagree (%s) on %s of %s' % (m, what, case.label),
+                                   dict(expr=X.describe(tree, case.args), pickled=pack(tree, case.args), lean=res, real=numpy.asarray(real_value).tolist()))
+
+    def oracle_vs_real(self, case, tag, d, kd, dv, a, chk):
+        """compare the REAL evaluation of the derivative tree with Lean's formal Jacobian at the point (numeric reading)"""
+        jp = a.get('jacpt')
+        if kd != 'ok':
+            self.count(case, 'derivative-not-evaluable:' + str(kd)); return
+        if not jp or 'error' in jp:
+            self.count(case, 'oracle-unavailable:' + (jp or {}).get('error', 'none'))
+            if case.fd and (jp or {}).get('error') not in ('kink', 'undefined'):
+                v, J = fd_verdict(case.e_real, dv, case.args, case.wrt)
+                self.count(case, 'numeric:' + v)
+                if v == 'agree': self.nnum += 1
+                elif v == 'disagree': self.report(case, tag, d, dv, J, 'finite differences of the real expression')
+            return
+        try:
+            J = keys_to_array(jp)
+        except (KeyError, ValueError, OverflowError, ZeroDivisionError):
+            self.count(case, 'oracle-not-numeric'); return
+        if rel_close(dv, J, 1e-9):
+            self.count(case, 'real-derivative-equals-lean-jacobian-at-point:' + tag); self.nnum += 1
+        else:
+            v, Jfd = fd_verdict(case.e_real, dv, case.args, case.wrt) if case.fd else ('unreliable', None)
+            self.count(case, 'candidate(oracle):fd-' + v)
+            if v == 'agree':
+                self.c.broken_no_input('corr:spec-derivative', 'Lean formal Jacobian differs from the real derivative value, but finite differences of the real code agree with the real derivative',
+                                       dict(label=case.label, expr=X.describe(case.e, case.args), lean_jacobian=J.tolist(), real=numpy.asarray(dv).tolist()))
+            else:
+                self.report(case, tag, d, dv, J, 'the formal Jacobian of the specification semantics at the sample point' + (' and finite differences' if v == 'disagree' else ''))
+
+    def confirm(self, case, tag, d, kd, dv, a, chk):
+        c = self.c
+        if case.presubst or kd != 'ok':
+            # virtual target / not evaluable: the Lean verdict stands on the spec semantics; report with what we have
+            self.count(case, 'candidate:lean-only')
+            self.report(case, tag, d, dv, None, 'exact comparison in Lean at the sample point: ' + json.dumps(chk.get('diffs', [])[:3]))
+            return
+        v, J = fd_verdict(case.e_real, dv, case.args, case.wrt) if case.fd else ('unreliable', None)
+        self.count(case, 'candidate:fd-' + v)
+        if v == 'agree':
+            c.broken_no_input('corr:spec-derivative', 'Lean says the derivative tree differs from the formal Jacobian at the sample point, but finite differences of the real code agree with the real derivative value',
+                              dict(label=case.label, expr=X.describe(case.e, case.args), diffs=chk.get('diffs', [])[:5], real=numpy.asarray(dv).tolist()))
+        else:
+            self.report(case, tag, d, dv, J, 'exact comparison in Lean at the sample point' + (', confirmed by 6-point finite differences of the real eval_once' if v == 'disagree' else ' (finite differences unreliable here)'))
+
+
+# ------------------------------------------------------------------------------------------------ generator (float expressions that the code can differentiate)
+
+def fconst(shape, v):
+    return ev.Constant(types.arraydata(numpy.full(shape, float(v))))
+
+
+class DGen(genexpr.Gen):
+    """nvh.genexpr with the non-differentiable raw nodes (Negative / Absolute / Reciprocal have no derivative rule in the code)
+    replaced by the forms the library itself builds, plus the transcendental operations and Power with a non-constant exponent"""
+
+    RAW_SHARE = .08
+
+    def ops_for(self, dtype, shape):
+        ops = super().ops_for(dtype, shape)
+        if dtype != bool:
+            ops = [('NegativeF' if o == 'Negative' else 'AbsF' if o == 'Absolute' else o) for o in ops]
+        if dtype == float:
+            ops = [('ReciprocalF' if o == 'Reciprocal' else o) for o in ops]
+            ops += ['PowerVar', 'PowerVar', 'LogPos', 'ArcTan2', 'ArcBounded', 'Divide', 'SqrtPos', 'Sinc', 'PolyvalDep', 'PolyvalDep', 'Trig']
+            if self.rng.random() < self.RAW_SHARE:
+                ops += ['Negative', 'Absolute', 'Reciprocal']
+        if self.allow is not None:
+            ops = [o for o in ops if o in self.allow or o == 'leaf']
+        return ops
+
+    def positive(self, shape, depth):
+        f = self.array(float, shape, depth-1)
+        return ev.Add(types.frozenmultiset([ev.abs(f), fconst(shape, self.rng.choice([.5, 1., 2.]))]))
+
+    def mk_NegativeF(self, dtype, shape, depth):
+        return ev.negative(self.array(dtype, shape, depth-1))
+
+    def mk_AbsF(self, dtype, shape, depth):
+        return ev.abs(self.array(dtype, shape, depth-1))
+
+    def mk_ReciprocalF(self, dtype, shape, depth):
+        return ev.reciprocal(self.positive(shape, depth))
+
+    def mk_PowerVar(self, dtype, shape, depth):
+        return ev.Power(self.positive(shape, depth), self.array(float, shape, depth-1))
+
+    def mk_LogPos(self, dtype, shape, depth):
+        return ev.Log(self.positive(shape, depth))
+
+    def mk_SqrtPos(self, dtype, shape, depth):
+        return ev.sqrt(self.positive(shape, depth))
+
+    def mk_ArcTan2(self, dtype, shape, depth):
+        return ev.ArcTan2(self.array(float, shape, depth-1), self.positive(shape, depth) if self.rng.random() < .5 else self.array(float, shape, depth-1))
+
+    def mk_ArcBounded(self, dtype, shape, depth):
+        cls = self.rng.choice([ev.ArcSin, ev.ArcCos, ev.ArcTanH])
+        inner = ev.Multiply(types.frozenmultiset([ev.Sin(self.array(float, shape, depth-1)), fconst(shape, .5)]))
+        return cls(inner)
+
+    def mk_Divide(self, dtype, shape, depth):
+        return ev.divide(self.array(float, shape, depth-1), self.positive(shape, depth))
+
+    def mk_Sinc(self, dtype, shape, depth):
+        return ev.Sinc(self.array(float, shape, depth-1), self.rng.choice([0, 1]))
+
+    def mk_PolyvalDep(self, dtype, shape, depth):
+        # coefficients AND points share an argument-dependent subterm
+        k = self.rng.randint(0, len(shape))
+        nv = self.rng.choice([1, 1, 2]); p = self.rng.choice([1, 2, 3])
+        coeffs = self.array(float, shape[k:] + (self._ncoeffs(nv, p),), depth-1)
+        points = self.array(float, shape[:k] + (nv,), depth-1)
+        return ev.Polyval(coeffs, points)
+
+
+def random_float_case(rng, depth, **kw):
+    g = DGen(rng, **kw)
+    nd = rng.choice([0, 0, 1, 1, 2, 2, 3])
+    shape = tuple(rng.choice([1, 2, 2, 3, 3, 0]) for _ in range(nd))
+    dtype = rng.choice([float] * 9 + [int, bool])
+    e = g.array(dtype, shape, depth)
+    return e, g
+
+
+# ------------------------------------------------------------------------------------------------ streams
+
+def stream_random(c, J, n, maxdepth):
+    cases = []
+    tries = 0
+    while len(cases) < n and tries < 6 * n:
+        tries += 1
+        depth = c.rng.choice(range(1, maxdepth+1))
+        try:
+            e, g = random_float_case(c.rng, depth)
+        except Exception as ex:
+            J.outcome['generator-exception:' + type(ex).__name__] += 1; continue
+        names = [k for k in float_argument_names(e) if k in g.args]
+        if not names:
+            continue
+        ke, ve = X.real_eval(e, g.args)
+        if ke != 'ok':
+            J.outcome['original-' + ke] += 1; continue
+        for k, v in g.hits.items(): c.count('gen:' + k, v)
+        c.rng.shuffle(names)
+        # derivative w.r.t. one of several arguments: up to two different arguments of the same expression in the same process
+        for wrt in names[:2]:
+            cases += derivative_case(c, 'random', 'e%d' % tries, e, wrt, g.args, second=(e.dtype == float and c.rng.random() < .6), outcome=J.outcome)
+        if c.rng.random() < .1:
+            # an argument that does not occur: the derivative must be identically zero, of the right shape
+            args = dict(g.args, zz=numpy.array([.5, -1.]))
+            cases += derivative_case(c, 'random-absent-argument', 'e%d' % tries, e, 'zz', args, second=False, outcome=J.outcome)
+    return cases
+
+
+def A(name, *shape, dtype=float):
+    return ev.Argument(name, tuple(ev.constant(n) for n in shape), dtype)
+
+
+def dyadic(rng, shape, lo=-8, hi=8, den=(2., 4.)):
+    r = numpy.random.default_rng(rng.getrandbits(32))
+    return r.integers(lo, hi+1, shape) / rng.choice(list(den))
+
+
+def orthonormal_spec(G, v):
+    """the array meaning of Orthonormal(G, v) written with operations of the Lean fragment (Orthonormal.evalf)"""
+    GG = ev.einsum('Aki,Akj->Aij', G, G)
+    v1 = ev.einsum('Aij,Ai->Aj', G, v)
+    v2 = ev.einsum('Aij,Aj->Ai', ev.inverse(GG), v1)
+    v3 = ev.einsum('Aij,Aj->Ai', G, v2)
+    w = v - v3
+    nrm = ev.Power(ev.Sum(w * w), fconst(tuple(int(n) for n in w.shape[:-1]), -.5))
+    return w * ev.insertaxis(nrm, w.ndim-1, w.shape[-1])
+
+
+def class_instances(rng, heavy=True):
+    """(class whose rule is targeted, label, expression, args, wrt[, e_lean]) — minimal instances on opaque Arguments"""
+    x3, y3 = A('x', 3), A('y', 3)
+    X23, M = A('X', 2, 3), A('M', 2, 2)
+    N3 = A('N', 3, 3)
+    i3 = ev.Constant(types.arraydata(numpy.array([2, 0, 2])))
+    iarg = ev.InRange(A('k', 2, dtype=int), ev.constant(3))
+    val = lambda *shape: dyadic(rng, shape)
+    args = dict(x=val(3), y=val(3), X=val(2, 3), M=numpy.array([[2., .5], [-.25, 1.5]]) + val(2, 2) / 8, N=numpy.diag([2., 3., 1.5]) + val(3, 3) / 8, k=numpy.array([2, 1]))
+    mul = lambda a, b: ev.Multiply(types.frozenmultiset([a, b]))
+    add = lambda a, b: ev.Add(types.frozenmultiset([a, b]))
+    li = ev.loop_index('i', ev.constant(3))
+    lj = ev.loop_index('j', ev.constant(2))
+    out = [
+        ('Argument', 'x', x3, 'x'),
+        ('Argument', 'X', X23, 'X'),
+        ('InsertAxis', 'InsertAxis(sin x)', ev.InsertAxis(ev.Sin(x3), ev.constant(2)), 'x'),
+        ('Transpose', 'Transpose(X²)', ev.Transpose(mul(X23, X23), (1, 0)), 'X'),
+        ('Product', 'Product(X)', ev.Product(X23), 'X'),
+        ('Product', 'Product(x·y)', ev.Product(mul(x3, y3)), 'x'),
+        ('Inverse', 'Inverse(M)', ev.Inverse(M), 'M'),
+        ('Inverse', 'Inverse(N)', ev.Inverse(N3), 'N'),
+        ('Determinant', 'Determinant(M)', ev.Determinant(M), 'M'),
+        ('Determinant', 'Determinant(N)', ev.Determinant(N3), 'N'),
+        ('Multiply', 'x·sin(x)', mul(x3, ev.Sin(x3)), 'x'),
+        ('Multiply', 'x·y', mul(x3, y3), 'y'),
+        ('Add', 'x+x²', add(x3, mul(x3, x3)), 'x'),
+        ('Sum', 'Sum(X²)', ev.Sum(mul(X23, X23)), 'X'),
+        ('TakeDiag', 'TakeDiag(N·N)', ev.TakeDiag(mul(N3, N3)), 'N'),
+        ('Take', 'Take(x², const)', ev.Take(mul(x3, x3), i3), 'x'),
+        ('Take', 'Take(X², arg)', ev.Take(mul(X23, X23), iarg), 'X'),
+        ('Power', 'x^3', ev.Power(x3, fconst((3,), 3)), 'x'),
+        ('Power', 'x^0', ev.Power(x3, fconst((3,), 0)), 'x'),
+        ('Power', 'x^1', ev.Power(x3, fconst((3,), 1)), 'x'),
+        ('Power', '(1+x²)^(-3/2)', ev.Power(add(fconst((3,), 1), mul(x3, x3)), fconst((3,), -1.5)), 'x'),
+        ('Power', '(1+x²)^y', ev.Power(add(fconst((3,), 1), mul(x3, x3)), y3), 'x'),
+        ('Power', '(1+x²)^y wrt y', ev.Power(add(fconst((3,), 1), mul(x3, x3)), y3), 'y'),
+        ('Power', '(1+y²)^(x·y)', ev.Power(add(fconst((3,), 1), mul(y3, y3)), mul(x3, y3)), 'y'),
+        ('IntToFloat', 'IntToFloat(k)·x', mul(ev.InsertAxis(ev.IntToFloat(ev.Sum(A('k', 2, dtype=int))), ev.constant(3)), x3), 'x'),
+        ('IntToFloat', 'IntToFloat(x > y)·x', mul(ev.IntToFloat(ev.BoolToInt(ev.Greater(x3, y3))), x3), 'x'),
+        ('Sign', 'Sign(x)·x', mul(ev.Sign(x3), x3), 'x'),
+        ('Inflate', 'Inflate(x², [2,0,2], 4)', ev.Inflate(mul(x3, x3), i3, ev.constant(4)), 'x'),
+        ('Inflate', 'Inflate(X², 2-d dofmap)', ev.Inflate(mul(X23, X23), ev.Constant(types.arraydata(numpy.array([[0, 1, 1], [3, 0, 1]]))), ev.constant(4)), 'X'),
+        ('Diagonalize', 'Diagonalize(sin x)', ev.Diagonalize(ev.Sin(x3)), 'x'),
+        ('Guard', 'Guard(x²)', ev.Guard(mul(x3, x3)), 'x'),
+        ('Ravel', 'Ravel(X²)', ev.Ravel(mul(X23, X23)), 'X'),
+        ('Unravel', 'Unravel(Ravel X · 2)', ev.Unravel(ev.Ravel(mul(X23, X23)), ev.constant(3), ev.constant(2)), 'X'),
+        ('Polyval', 'Polyval(coeffs x, points y)', ev.Polyval(ev.Take(mul(x3, y3), ev.Constant(types.arraydata(numpy.array([0, 1, 2, 0, 1, 2])))), ev.Take(mul(y3, x3), ev.Constant(types.arraydata(numpy.array([[0, 1], [2, 1]]))))), 'x'),
+        ('Polyval', 'Polyval(coeffs X, points x)', ev.Polyval(X23, ev.InsertAxis(ev.Sum(mul(x3, x3)), ev.constant(1))), 'X'),
+        ('Polyval', 'Polyval(coeffs X(x), points x)', ev.Polyval(mul(X23, ev.Transpose(ev.InsertAxis(x3, ev.constant(2)), (1, 0))), ev.Take(x3, ev.Constant(types.arraydata(numpy.array([[0], [2]])))) ), 'x'),
+        ('Legendre', 'Legendre(x/8, 4)', ev.Legendre(mul(x3, fconst((3,), .125)), 4), 'x'),
+        ('Choose', 'Choose(k, [x², x·y, y])', ev.Choose(ev.Constant(types.arraydata(numpy.array([2, 0, 1]))), ev.stack([mul(x3, x3), mul(x3, y3), y3], 1)), 'x'),
+        ('LoopSum', 'LoopSum_i x[i]·i·x', ev.loop_sum(mul(ev.InsertAxis(mul(ev.Take(x3, li), ev.IntToFloat(li)), ev.constant(3)), x3), li), 'x'),
+        ('LoopSum', 'nested LoopSum', ev.loop_sum(ev.loop_sum(mul(ev.Take(ev.Take(X23, li), lj), mul(ev.Take(x3, li), ev.IntToFloat(lj + 1))), lj), li), 'X'),
+        ('LoopConcatenate', 'LoopConcatenate_i [x[i]·y]', ev.loop_concatenate(mul(ev.InsertAxis(ev.Take(x3, li), ev.constant(3)), y3), li), 'x'),
+        ('LoopConcatenate', 'LoopConcatenate variable chunks', ev.loop_concatenate(ev.Take(mul(x3, x3), ev.Range(li + 1)), li), 'x'),
+        ('LoopConcatenate', 'LoopConcatenate of 2-d body', ev.loop_concatenate(mul(ev.Transpose(ev.InsertAxis(ev.Take(X23, lj), ev.constant(3)), (1, 0)), ev.InsertAxis(ev.InsertAxis(ev.IntToFloat(lj + 1), ev.constant(3)), ev.constant(2))), lj), 'X'),
+    ]
+    for cls in pointwise_with_deriv():
+        nargs = len(cls.deriv)
+        name = cls.__name__
+        if name in ('ArcSin', 'ArcCos', 'ArcTanH'):
+            inst = cls(mul(ev.Sin(x3), fconst((3,), .5)))
+        elif name == 'Log':
+            inst = cls(add(mul(x3, x3), fconst((3,), .5)))
+        elif name == 'Sinc':
+            inst = cls(x3, 0)
+        elif nargs == 1:
+            inst = cls(x3)
+        else:
+            inst = cls(mul(x3, fconst((3,), 1.5)), add(y3, mul(x3, x3)))
+        out.append(('Pointwise:' + name, name, inst, 'x'))
+        if nargs == 2:
+            out.append(('Pointwise:' + name, name + ' wrt y', inst, 'y'))
+    res = []
+    for t in out:
+        # second derivatives of 3x3 Inverse / Determinant cost ~10 s each in the Lean evaluator: thorough tier only
+        second = heavy or t[1] not in ('Inverse(N)', 'Determinant(N)')
+        res.append((t[0], t[1], t[2], dict(args), t[3], second))
+    return res
+
+
+def stream_classes(c, J):
+    cases = []
+    for cname, label, e, args, wrt, second in class_instances(c.rng, heavy=c.tier != 'quick'):
+        used = {a.name for a in e.arguments if isinstance(a, ev.Argument)} | {wrt}
+        cases += derivative_case(c, 'class', '%s: %s' % (cname, label), e, wrt, {k: v for k, v in args.items() if k in used}, second=second, outcome=J.outcome)
+    return cases
+
+
+def stream_special(c, J):
+    """classes outside the Lean fragment: the formal Jacobian of an equivalent expression inside the fragment is the oracle
+    for the REAL evaluation of the real derivative tree"""
+    cases = []
+    rng = c.rng
+    mul = lambda a, b: ev.Multiply(types.frozenmultiset([a, b]))
+    # --- Orthonormal (both branches: dim kern = 1 and > 1)
+    shapes = [('Orthonormal 3x1 (kernel dim 2)', 3, 1), ('Orthonormal 2x1 (kernel dim 1)', 2, 1)]
+    if c.tier != 'quick':
+        shapes.append(('Orthonormal 3x2 (kernel dim 1)', 3, 2))   # ~60 s in the Lean evaluator
+    for label, n, k in shapes:
+        G, v = A('G', n, k), A('v', n)
+        args = dict(G=numpy.eye(n)[:, :k] * 2 + dyadic(rng, (n, k)) / 8, v=numpy.ones(n) + dyadic(rng, (n,)) / 8)
+        for wrt in ('G', 'v'):
+            Gx = mul(G, G) if wrt == 'G' and rng.random() < .3 else G
+            e_real = ev.Orthonormal(Gx, v)
+            e_spec = orthonormal_spec(Gx, v)
+            cases += derivative_case(c, 'special', label + ' wrt ' + wrt, e_real, wrt, args, second=False, outcome=J.outcome, e_lean=e_spec, jacpt=True)
+    # --- Monomial (evaluable.factor of a polynomial expression)
+    x, y = A('x', 3), A('y', 2)
+    args = dict(x=dyadic(rng, (3,)), y=dyadic(rng, (2,)))
+    poly = ev.Sum(mul(ev.InsertAxis(mul(x, x), ev.constant(2)), ev.Transpose(ev.InsertAxis(y, ev.constant(3)), (1, 0)))) + x * 2.
+    try:
+        kind, f = X.guarded(lambda: ev.factor(poly), 60)
+    except Exception as ex:
+        kind, f = 'exception', ex
+    if kind == 'ok':
+        for wrt in ('x', 'y'):
+            cases += derivative_case(c, 'special', 'Monomial: factor(Σ x²y + 2x) wrt ' + wrt, f, wrt, args, second=False, outcome=J.outcome, e_lean=poly, jacpt=True)
+    else:
+        J.outcome['factor-' + kind] += 1
+    return cases
+
+
+def stream_transformcoords(c, J):
+    """TransformCoords: no specification inside the Lean fragment; real derivative vs finite differences of the real code (exploration)"""
+    from nutils import mesh
+    n = 0
+    try:
+        topo, geom = mesh.rectilinear([2, 2])
+        coords = A('xi', 2)
+        e = ev.TransformCoords(None, topo.transforms, ev.constant(2), ev.Sin(coords) * coords)
+        args = dict(xi=numpy.array([.25, .5]))
+        k, d = safe_derivative(e, coords)
+        if k == 'ok':
+            kd, dv = X.real_eval(d, args)
+            if kd == 'ok':
+                v, Jfd = fd_verdict(e, dv, args, 'xi')
+                J.outcome['transformcoords:fd-' + v] += 1
+                c.case(('transformcoords',))
+                n += 1
+                if v == 'disagree':
+                    c.failing_input('derivative-wrong:TransformCoords', 'derivative of TransformCoords differs from finite differences of the real evaluation',
+                                    dict(expr=X.describe(e, args), real_derivative=dv.tolist(), expected=Jfd.tolist()))
+        else:
+            J.outcome['transformcoords:derivative-' + k] += 1
+    except Exception as ex:
+        J.outcome['transformcoords:setup-exception:' + type(ex).__name__] += 1
+    return n
+
+
+def stream_withderivative(c, J, n):
+    """virtual derivative targets: WithDerivative(f, T, D) behaves for d/dT like f + D·t at t = 0, for every value of the real arguments"""
+    cases = []
+    rng = c.rng
+    for i in range(n):
+        g = DGen(rng, loops=False)
+        k = rng.choice([1, 2, 3])
+        shape = tuple(rng.choice([1, 2, 3]) for _ in range(rng.choice([0, 1, 2])))
+        try:
+            f = g.array(float, shape, rng.choice([1, 2]))
+            D = g.array(float, shape + (k,), rng.choice([1, 2]))
+        except Exception:
+            continue
+        T = ev.IdentifierDerivativeTarget('T%d' % i, (ev.constant(k),))
+        w = ev.WithDerivative(f, T, D)
+        t = A('t', k)
+        lin = f + ev.Sum(D * ev.prependaxes(t, f.shape))
+        outer = rng.choice(['sin·w', 'sum w²', 'w·f', 'w', 'det'])
+        def build(u):
+            if outer == 'sin·w': return ev.Sin(u) * u
+            if outer == 'sum w²': return ev.Sum(ev.InsertAxis(u * u, ev.constant(2)))
+            if outer == 'w·f': return u * f + ev.Exp(u * .125)
+            return u
+        e_real, e_lean = build(w), build(lin)
+        kd, d = safe_derivative(e_real, T)
+        if kd != 'ok':
+            J.outcome['withderivative:derivative-' + kd] += 1; continue
+        ds = [('raw', d)]
+        ks, s = safe_simplified(d)
+        if ks == 'ok' and s is not d: ds.append(('simplified', s))
+        args = dict(g.args, t=numpy.zeros(k))
+        fl = [nm for nm in float_argument_names(e_lean) if nm != 't']
+        cases.append(Case('withderivative', 'WithDerivative/%s' % outer, e_lean, 't', args, ds, e_real=e_real, presubst=True, symbolic=fl, fd=False))
+        # the other branch of WithDerivative._derivative: a real argument passes through to func
+        if fl:
+            cases += derivative_case(c, 'withderivative', 'WithDerivative/%s wrt real argument' % outer, e_real, rng.choice(fl), g.args, second=False, outcome=J.outcome)
+    return cases
+
+
+def stream_function(c, J, n):
+    """function-level API: function.derivative / Array.derivative lowered with as_evaluable_array"""
+    cases = []
+    rng = c.rng
+    for i in range(n):
+        nu, nv = rng.choice([1, 2, 3]), rng.choice([1, 2])
+        u = function.Argument('u', (nu,))
+        v = function.Argument('v', (nv,))
+        M = function.Argument('M', (2, 2))
+        args = dict(u=dyadic(rng, (nu,)), v=dyadic(rng, (nv,)), M=numpy.array([[2., .5], [-.25, 1.5]]) + dyadic(rng, (2, 2)) / 8)
+        templates = [
+            ('sin(u)·exp(Σv/8)', lambda: numpy.sin(u) * numpy.exp(v.sum() / 8)),
+            ('u⊗v summed', lambda: (u[:, None] * v[None, :]).sum(1) * u),
+            ('dot/norm', lambda: (u @ u) / numpy.sqrt(1 + u @ u)),
+            ('inverse(M)·M²', lambda: (numpy.linalg.inv(M) @ (M @ M)).sum(0)),
+            ('determinant', lambda: numpy.linalg.det(M @ M + numpy.eye(2))),
+            ('arctan2', lambda: numpy.arctan2(u, 1 + u**2) * v[0]),
+            ('power', lambda: numpy.power(1 + u**2, v[0] / 4)),
+            ('max/min', lambda: numpy.maximum(u, v[0]) - numpy.minimum(u * u, .75)),
+            ('stack/concatenate', lambda: numpy.concatenate([u * v[0], numpy.tanh(u)])),
+            ('trace', lambda: numpy.trace(M @ M) * numpy.cosh(u / 8)),
+            ('abs·sign', lambda: abs(u) * numpy.sign(v[0]) + u**3),
+            ('ln', lambda: numpy.log(2 + numpy.cos(u)) * numpy.arctan(v[0])),
+            ('norm', lambda: numpy.linalg.norm(numpy.stack([u[0], v[0], 1 + u[0] * v[0]]))),
+            ('divide', lambda: u / (1 + v[0]**2) + numpy.sinh(v.sum() / 8)),
+        ]
+        name, mk = rng.choice(templates)
+        try:
+            f = mk()
+            wrt = rng.choice([k for k in ('u', 'v', 'M') if k in f.arguments])
+            how = rng.choice(['str', 'arg', 'method'])
+            if how == 'str': d = function.derivative(f, wrt)
+            elif how == 'arg': d = function.derivative(f, function.Argument(wrt, f.arguments[wrt][0]))
+            else: d = f.derivative(wrt)
+            fe, de = f.as_evaluable_array, d.as_evaluable_array
+        except Exception as ex:
+            J.outcome['function:setup-exception:%s:%s' % (name, type(ex).__name__)] += 1; continue
+        a = {k: w for k, w in args.items() if k in f.arguments}
+        ds = [('raw', de)]
+        ks, s = safe_simplified(de)
+        if ks == 'ok' and s is not de: ds.append(('simplified', s))
+        cases.append(Case('function', 'function.derivative[%s](%s, %s)' % (how, name, wrt), fe, wrt, a, ds))
+        # second derivative w.r.t. (possibly) another argument through the function API
+        try:
+            w2 = rng.choice(sorted(f.arguments))
+            dd = function.derivative(d, w2).as_evaluable_array
+            ds2 = [('raw', dd)]
+            ks, s2 = safe_simplified(dd)
+            if ks == 'ok' and s2 is not dd: ds2.append(('simplified', s2))
+            cases.append(Case('function', 'function.derivative²(%s, %s, %s)' % (name, wrt, w2), de, w2, a, ds2))
+        except Exception as ex:
+            J.outcome['function:second-exception:' + type(ex).__name__] += 1
+    return cases
+
+
+def _diag_all(arr):
+    # d f[i…] / d a[j…] = g[i…] δ_{ij…}: diagonalize every axis
+    out = arr
+    n = arr.ndim
+    for i in range(n):
+        out = function.diagonalize(out, i, n + i)
+    return out
+
+
+class _PolyCustom(function.Custom):
+    """f(a, b) = a·b² + a (entrywise), partial derivatives (b² + 1)·δ and 2ab·δ"""
+
+    def __init__(self, a, b, npointwise):
+        a, b = function.broadcast_arrays(a, b)
+        super().__init__(args=(a, b), shape=a.shape[npointwise:], dtype=float, npointwise=npointwise)
+
+    @types.hashable_function('nvh.c04._PolyCustom.evalf v1')
+    def evalf(a, b):
+        return a * b**2 + a
+
+    @types.hashable_function('nvh.c04._PolyCustom.partial_derivative v1')
+    def partial_derivative(iarg, a, b):
+        return _diag_all(b**2 + 1) if iarg == 0 else _diag_all(2 * a * b)
+
+
+class _ContractCustom(function.Custom):
+    """f(a, w)[i] = Σ_j a[i, j]² w[j]  (argument shapes differ from the result shape)"""
+
+    def __init__(self, a, w):
+        a, w = function.Array.cast(a), function.Array.cast(w)
+        super().__init__(args=(a, w), shape=(a.shape[0],), dtype=float, npointwise=0)
+
+    @types.hashable_function('nvh.c04._ContractCustom.evalf v1')
+    def evalf(a, w):
+        return numpy.einsum('pij,pj->pi', a**2, w)
+
+    @types.hashable_function('nvh.c04._ContractCustom.partial_derivative v1')
+    def partial_derivative(iarg, a, w):
+        if iarg == 0:   # d f[i] / d a[k, j] = δ_ik 2 a[i, j] w[j]
+            return function.diagonalize(2 * a * w[None, :], 0, 1)
+        return a**2     # d f[i] / d w[j]
+
+
+def stream_custom(c, J, n):
+    """_CustomEvaluable._derivative: user-defined operation with polynomial partial derivatives against the same polynomial built from plain operations"""
+    cases = []
+    rng = c.rng
+    for i in range(n):
+        nu = rng.choice([2, 3])
+        u = function.Argument('u', (nu,))
+        v = function.Argument('v', (nu,))
+        args = dict(u=dyadic(rng, (nu,)), v=dyadic(rng, (nu,)))
+        kind = rng.choice(['pointwise', 'shape', 'contract', 'chain'])
+        try:
+            if kind == 'pointwise':
+                a, b = u * v, numpy.sin(u) + v
+                cust, plain = _PolyCustom(a, b, 1), a * b**2 + a
+            elif kind == 'shape':
+                a, b = u * 2 + v, u * u
+                cust, plain = _PolyCustom(a, b, 0), a * b**2 + a
+            elif kind == 'chain':
+                a, b = u * v, u - v
+                inner = _PolyCustom(a, b, rng.choice([0, 1]))
+                cust, plain = numpy.exp(inner / 16) * u, numpy.exp((a * b**2 + a) / 16) * u
+            else:
+                a = u[:, None] * v[None, :] + 1
+                w = numpy.cos(v)
+                cust, plain = _ContractCustom(a, w), (a**2 * w[None, :]).sum(1)
+            ce, pe = cust.as_evaluable_array, plain.as_evaluable_array
+        except Exception as ex:
+            J.outcome['custom:setup-exception:%s:%s' % (kind, type(ex).__name__)] += 1; continue
+        k1, v1 = X.real_eval(ce, args); k2, v2 = X.real_eval(pe, args)
+        if k1 != 'ok' or k2 != 'ok' or not X.arrays_close(v1, v2):
+            J.outcome['custom:harness-operation-mismatch'] += 1; continue
+        wrt = rng.choice(['u', 'v'])
+        cases += derivative_case(c, 'custom', '_CustomEvaluable/%s wrt %s' % (kind, wrt), ce, wrt, args, second=False, outcome=J.outcome, e_lean=pe, jacpt=True)
+    return cases
+
+
+# ------------------------------------------------------------------------------------------------ (X) search when the table proof breaks
+
+def search_pointwise_failing(c, rows):
+    """finite differences of the REAL evaluable.derivative of every extracted scalar operation at dyadic points; returns number of failing inputs found"""
+    found = 0
+    pts = [(-.75, .5), (.25, 1.5), (.5, -.25), (1.5, 2.), (-.375, .125)]
+    ops = [(cls.__name__, len(cls.deriv), (lambda cls: lambda *xs: cls(*xs, *[p.default for p in list(inspect.signature(cls).parameters.values())[len(cls.deriv):]]))(cls)) for cls in pointwise_with_deriv()]
+    ops += [(name, n, mk) for name, n, mk in derived_ops()]
+    for name, n, mk in ops:
+        xs = scalar_args(n)
+        try:
+            e = mk(*xs)
+        except Exception:
+            continue
+        for i in range(n):
+            k, d = safe_derivative(e, xs[i])
+            if k != 'ok': continue
+            for p in pts:
+                args = {'x%d' % j: numpy.array(p[j]) for j in range(n)}
+                ke, ve = X.real_eval(e, args); kd, dv = X.real_eval(d, args)
+                if ke != 'ok' or kd != 'ok': continue
+                v, Jfd = fd_verdict(e, dv, args, 'x%d' % i)
+                c.count('table-search:' + v)
+                if v == 'disagree':
+                    found += 1
+                    c.failing_input('deriv-table-wrong:%s:%d' % (name, i), 'derivative of %s w.r.t. argument %d differs from finite differences of the real evaluation' % (name, i),
+                                    dict(op=name, position=i, arguments={k: float(v) for k, v in args.items()}, real_derivative=float(dv), finite_difference=float(Jfd)))
+                    break
+    return found
+
+
+# ------------------------------------------------------------------------------------------------ main
+
+def run(c):
+    c.rule = ('(V) random well-typed float/int/bool evaluable DAGs from nvh.genexpr extended with transcendental operations, Power with argument-dependent exponent, '
+              'division, Polyval with argument-dependent coefficients and points, loops with index-dependent bodies; one real argument symbolic, the others dyadic; '
+              'REAL evaluable.derivative tree un-simplified and simplified, derivative of the derivative, up to two arguments per expression; '
+              '(M) one minimal instance per node class with a _derivative rule; function.derivative / Custom / WithDerivative / Orthonormal / factor streams; '
+              'a case is non-trivial when the derivative tree is not Zeros; distinct by stream, label and nutils hash of the derivative trees')
+    c.assumptions += ['complex dtype is not generated (FloatToComplex._derivative and the complex branches are not covered)',
+                      'the argument differentiated to is symbolic; other arguments, axis lengths and loop lengths are sampled dyadic values',
+                      'symbolic "same" means: equal normal forms of the Lean value of the real derivative tree and the formal partial derivative (Model/C04.pderiv, rules proved in specRules_sound) of the Lean value of the expression, '
+                      'i.e. equality for all real values of the argument where both are defined and away from kinks of abs/sign/min/max/floor/comparisons; "same-modinv" additionally uses inv(k)·k = 1 (sound where k ≠ 0)',
+                      'the Lean evaluator (Model/Expr.lean) is executed, not kernel-reduced; its parametricity in the carrier relies on Props/Poly',
+                      'a symbolic "differ" is never a verdict: exact comparison at the sample point, then numeric reading of transcendental atoms, then confirmation on the real code (real evaluation + 6-point finite differences)',
+                      'SE semantics over ℝ: pow is Real.rpow; arctan2 is proved on x ≠ 0 minus the branch cut; the derivatives of sinc are not claimed']
+    install_hit_counters()
+    # ---- (X) regenerate the table from the running code
+    rows = extract_table()
+    changed = c.write_generated('C04.lean', generated_text(rows))
+    c.extra['deriv_table'] = [dict(name=r[0], arity=r[1], pos=r[2], source=r[6], note=r[5]) for r in rows]
+    c.extra['deriv_table_unproved'] = sorted({r[0] for r in rows if r[4] is None or r[0].startswith('sinc')})
+    if changed: c.log('Generated/C04.lean changed')
+    broken = c.build_and_audit()
+    c.obligation('extract:deriv-table', len([r for r in rows if r[4] is not None]) >= 30, 'extraction', '%d rows extracted from the running code, %d outside SE' % (len(rows), len([r for r in rows if r[4] is None])))
+
+    quick = c.tier == 'quick'
+    J = Judge(c)
+    cases = []
+    cases += stream_classes(c, J)
+    cases += stream_special(c, J)
+    ntc = stream_transformcoords(c, J)
+    cases += stream_withderivative(c, J, 6 if quick else 60)
+    cases += stream_function(c, J, 10 if quick else 120)
+    cases += stream_custom(c, J, 6 if quick else 40)
+    cases += stream_random(c, J, 45 if quick else 1500, 3 if quick else 5)
+    c.log('%d cases generated' % len(cases))
+    # batches keep the driver's memory and the latency bounded
+    B = 400
+    for i in range(0, len(cases), B):
+        J.run(cases[i:i+B])
+        c.log('judged %d/%d' % (min(i+B, len(cases)), len(cases)))
+    for k, v in sorted(J.outcome.items()): c.count(k, v)
+    c.extra['by_stream'] = {k: dict(v) for k, v in J.by_stream.items()}
+    c.extra['proved_symbolically_for_all_real_values'] = J.nsym
+    c.extra['decided_exactly_or_closely_at_sample_point'] = J.npoint
+    c.extra['decided_numerically_on_real_code'] = J.nnum
+    # ---- per-class hit table of the real `_derivative` rules
+    table = {cls.__name__: HITS.get(cls.__name__, 0) for cls in derivative_classes()}
+    c.extra['derivative_rule_hits'] = table
+    c.extra['derivative_rule_hits_by_node_class'] = dict(HITS_CONCRETE)
+    never = sorted(k for k, v in table.items() if v == 0)
+    c.extra['derivative_rules_never_hit'] = never
+    expected_unhit = {'FloatToComplex'}
+    c.obligation('coverage:every-derivative-rule-hit', set(never) <= expected_unhit, 'coverage', 'never hit: %s' % (never or 'none'))
+    pw_never = sorted(cls.__name__ for cls in pointwise_with_deriv() if HITS_CONCRETE.get(cls.__name__, 0) == 0)
+    c.obligation('coverage:every-pointwise-deriv-entry-hit', not pw_never, 'coverage', 'never hit: %s' % (pw_never or 'none'))
+    c.obligation('corr:spec-eval', J.nspec_bad == 0 and J.nspec > 0, 'correspondence', '%d trees (expressions and derivative trees) evaluated identically by the Lean spec and the real code' % J.nspec)
+    viol = [v for v in c.violations if v[2].startswith('derivative-')]
+    c.obligation('valid:derivative-equals-formal-jacobian', not viol and J.nsym > 0, 'validation',
+                 '%d symbolic (all real values) + %d at the sample point + %d numeric' % (J.nsym, J.npoint, J.nnum))
+    c.obligation('explore:transformcoords-fd', ntc > 0, 'exploration', 'TransformCoords derivative against finite differences only')
+    # ---- a broken table proof / build: search a failing input on the real code first
+    for b in broken:
+        found = search_pointwise_failing(c, rows)
+        if not found and not c.violations:
+            c.broken_no_input('proof', b, dict(detail=b))
+        elif not found:
+            c.log('proof broken (%s); failing inputs already reported by the validation streams' % b[:80])
